@@ -288,7 +288,7 @@ def run(tier, only=None):
     acct = []
     for b in MPL.benches(tier):
         if b["name"] in ("triangle-saturated", "two-producers", "diamond", "map-filter-volume", "fanout-forward"):
-            jobs.append(dict(module="vlib.msgplane", scenario="scenario", loop_bound=60, budget_s=600 if tier == "quick" else 3000,
+            jobs.append(dict(module="vlib.msgplane", scenario="scenario", loop_bound=60, budget_s=1500 if tier == "quick" else 5000,
                              params=dict(bench=b["bench"], driver=b["driver"], permute=b.get("permute", True), acyclic=True, name=b["name"])))
             acct.append(b["name"])
     if only:
